@@ -128,13 +128,13 @@ def build_harness(work, race=False):
     return out
 
 
-def run_harness(work, vh, args, timeout=1800, check=True, env_extra=None, stdin=None):
+def run_harness(work, vh, args, timeout=1800, check=True, env_extra=None, stdin=None, crash_verdict=True):
     env = go_env(work)
     if env_extra:
         env.update(env_extra)
     p = subprocess.run([vh] + [str(a) for a in args], env=env, capture_output=True, text=True,
                        timeout=timeout, cwd=work.dir, input=stdin)
-    if p.returncode != 0:
+    if p.returncode != 0 and crash_verdict:
         where = crash_site(p.stderr or "", getattr(work, "prop", ""))
         if where:
             raise CrashInAnchoredCode([str(a) for a in args], where, (p.stderr or "")[-6000:])
